@@ -119,13 +119,19 @@ def proj_set(v, path, nv):
     raise Exception(path)
 
 # ---------------------------------------------------------------- place / operand parsing
+CHAR_LIT = re.compile(r"'(\\u\{[0-9a-fA-F]+\}|\\.|[^'\\])'")
 def split_top(s, sep=','):
-    out, depth, cur = [], 0, ''
-    for ch in s:
+    out, depth, cur, i = [], 0, '', 0
+    while i < len(s):
+        ch = s[i]
+        if ch == "'":                     # a char literal such as ',' or '(' must not be read as structure
+            mq = CHAR_LIT.match(s, i)
+            if mq: cur += mq.group(0); i = mq.end(); continue
         if ch in '([{<': depth += 1
         if ch in ')]}>': depth -= 1
         if ch == sep and depth == 0: out.append(cur.strip()); cur = ''
         else: cur += ch
+        i += 1
     if cur.strip(): out.append(cur.strip())
     return out
 
@@ -226,6 +232,7 @@ def eval_operand(fr, s, ctx):
             w = 64 if mc.group(2) == 'size' else int(mc.group(2))
             val = {('u', 'MAX'): (1 << w) - 1, ('u', 'MIN'): 0, ('i', 'MAX'): (1 << (w - 1)) - 1, ('i', 'MIN'): -(1 << (w - 1))}[(mc.group(1), mc.group(3))]
             return val if mc.group(2) == 'size' else BitVecVal(val, w)
+        if re.fullmatch(r'(?:std::option::)?Option::<.*>::None', c): return Enum('None', [])
         if c in ('true', 'false'): return c == 'true'
         if c.startswith('b"'):
             return rust_bytes(c[2:-1])
@@ -310,6 +317,7 @@ def disc_value(e, ctx):
 def eval_rvalue(fr, rv, ctx):
     rv = rv.strip()
     if rv.startswith('&mut '): return fr.ref(parse_place(rv[5:]))
+    if rv.startswith('&raw const (fake) '): return fr.ref(parse_place(rv[len('&raw const (fake) '):]))      # only used to read the length (PtrMetadata) for a bounds check
     if rv.startswith('&raw '): raise Exception(rv)
     if rv.startswith('&'): return fr.ref(parse_place(rv[1:]))
     mrep = re.fullmatch(r'\[(.*); (\d+)(?:_usize)?\]', rv)
@@ -677,7 +685,7 @@ def call(fr, callee, args, ctx):
         v = args[0].get().peek(); return opt(None if v is None else Ref(Cell(v)))
     if c.endswith('as Iterator>::next') and 'Split' not in c:
         return opt(args[0].get().next())
-    if re.match(r'Option::<.*>::is_some', c): return option_is_some(args[0].get(), ctx)
+    if re.match(r'Option::<.*>::is_some$', c): return option_is_some(_d(args[0]), ctx)
     if re.match(r'Option::<.*>::is_none', c): return not option_is_some(args[0].get(), ctx)
     if c.endswith('as Deref>::deref'): return args[0].get()       # Cow<str> -> &str : same byte string
     if c == 'String::push_str': s = args[0].get(); s.b.extend(args[1].b if isinstance(args[1], Str) else args[1].get().b); return None
@@ -760,9 +768,9 @@ def call(fr, callee, args, ctx):
     if 'as ResultExt<' in c and '>::context::<' in c:
         r = args[0]; return r if r.variant == 'Ok' else Enum('Err', [('opaque', 'context')])
     if c.endswith('as Try>::branch'):
-        r = args[0]; return Enum('Continue', [r.f[0]]) if r.variant == 'Ok' else Enum('Break', [r])
+        r = _d(args[0]); return Enum('Continue', [r.f[0]]) if r.variant in ('Ok', 'Some') else Enum('Break', [r])
     if 'as FromResidual<' in c: 
-        a = args[0]; return a if isinstance(a, Enum) else Enum('Err', [('opaque', 'residual')])
+        a = _d(args[0]); return a if isinstance(a, Enum) else Enum('Err', [('opaque', 'residual')])
     if re.search(r'::map_err::<', c): return args[0]
     if c == '<String as Deref>::deref': return args[0].get() if isinstance(args[0], Ref) else args[0]
     if 'impl str>::replace::<char>' in c:
@@ -901,6 +909,25 @@ def call(fr, callee, args, ctx):
         lo, hi = {'RangeFrom': lambda: (vals[0], len(s_.b)), 'RangeTo': lambda: (0, vals[0]), 'Range': lambda: (vals[0], vals[1])}[mg_.group(1)]()
         if lo > hi or hi > len(s_.b): return Enum('None', [])
         return Enum('Some', [Str(s_.b[lo:hi])])
+    mss_ = re.fullmatch(r"core::str::<impl str>::strip_(suffix|prefix)::<(\{closure@.*\}|char)>", c)
+    if mss_:
+        b = list(_d(args[0]).b)
+        if not b: return Enum('None', [])
+        ch = b[-1] if mss_.group(1) == 'suffix' else b[0]
+        if mss_.group(2) == 'char':
+            r = (ch == args[1])
+        else:
+            chw = ch if isinstance(ch, int) or ch.size() >= 32 else ZeroExt(32 - ch.size(), ch)
+            r = run_fn(closure_name(args[1]), [Ref(Cell(args[1])), chw], ctx)
+        ok = r if isinstance(r, bool) else ctx.branch(r)
+        if not ok: return Enum('None', [])
+        return Enum('Some', [Str(b[:-1] if mss_.group(1) == 'suffix' else b[1:])])
+    if re.fullmatch(r"core::str::<impl str>::match_indices::<char>", c):
+        b = list(_d(args[0]).b); out = []
+        for i_, x in enumerate(b):
+            hit = (x == args[1]) if isinstance(x, int) and isinstance(args[1], int) else ctx.branch(x == args[1])
+            if hit: out.append(Struct([i_, Str([x])]))
+        return SliceIter(out)
     mt_ = re.fullmatch(r"core::str::<impl str>::trim_(end|start)_matches::<\{closure@.*\}>", c)
     if mt_:
         b = list(_d(args[0]).b); clo = args[1]
@@ -1018,7 +1045,9 @@ def call(fr, callee, args, ctx):
                 if x is None: return out
                 out.append(x)
         def truth(r): return ctx.branch(r) if not isinstance(r, bool) else r
-        def callc(clo, *a): return run_fn(closure_name(clo), [clo] + list(a), ctx)
+        def callc(clo, *a):
+            if isinstance(clo, tuple) and clo and clo[0] == 'fnitem': return call(fr, clo[1], list(a), ctx)       # a function item used as the predicate / mapper
+            return run_fn(closure_name(clo), [clo] + list(a), ctx)
         if meth == 'count': return len(items())
         if meth == 'last':
             xs = items(); return opt(xs[-1] if xs else None)
